@@ -3,8 +3,8 @@
 
 def config(T):
     return {
-        "C01": dict(pkg="c01", tests=[T("TestPinned"), T("TestExec", 4800, 80000, sq=8, st=16, race=True), T("TestExecUnionEdge", 800, 16000, sq=2, st=8), T("TestExecSharedFragments", 1200, 32000, sq=4, st=8, race=True)]),
-        "C02": dict(pkg="c02", tests=[T("TestConverge", 2400, 32000, sq=8, st=16, race=True)]),
+        "C01": dict(pkg="c01", tests=[T("TestPinned"), T("TestExec", 4800, 80000, sq=8, st=16, race=True), T("TestExecUnionEdge", 800, 16000, sq=2, st=8), T("TestExecSharedFragments", 1200, 32000, sq=4, st=8, race=True), T("TestExecDirectives", 1200, 24000, sq=4, st=8)]),
+        "C02": dict(pkg="c02", tests=[T("TestConverge", 2400, 32000, sq=8, st=16, race=True), T("TestRoundTrip", 8000, 80000, sq=4, st=8, pkg="c03")]),
         "C03": dict(pkg="c03", fuzz=[dict(name="FuzzRoundTrip", secs=60)], tests=[T("TestPinned"), T("TestRoundTrip", 36000, 400000, sq=8, st=16)]),
         "C06": dict(pkg="c06", race_quick=True, tests=[T("TestKnownTypename"), T("TestSiblingHops", race=True), T("TestTransparent", 640, 16000, sq=8, st=16), T("TestDirectivesGateway", 80, 4000, sq=4, st=8),
                                                        T("TestConcurrentRefresh", 30, 600, sq=1, st=4, race=True, timeout_q=900)]),
@@ -18,7 +18,7 @@ def config(T):
         "C14": dict(pkg="c14", tests=[T("TestPinned"), T("TestAdvertised", 1800, 24000, sq=6, st=16), T("TestMethodShapes", 9000, 120000, sq=4, st=8)]),
         "C15": dict(pkg="c15", fuzz=[dict(name="FuzzPipeline", secs=90), dict(name="FuzzEnvelope", secs=45), dict(name="FuzzHTTP", secs=45)], tests=[T("TestPinned"), T("TestDocuments", 36000, 600000, sq=6, st=16), T("TestBombs", 200, 2000, sq=2, st=4),
                                       T("TestEnvelopes", 600, 20000, sq=2, st=8, race=True), T("TestHTTP", 800, 20000, sq=2, st=4),
-                                      T("TestPanicContained", 150, 3000, sq=1, st=4, race=True), T("TestCancellation", 200, 4000, sq=1, st=1), T("TestGatewayCancellation", 150, 3000, sq=1, st=1), T("TestGatewaySiblingFailure", 120, 2000, sq=4, st=8)]),
+                                      T("TestPanicContained", 150, 3000, sq=1, st=4, race=True), T("TestCancellation", 200, 4000, sq=1, st=1), T("TestGatewayCancellation", 150, 3000, sq=1, st=1), T("TestGatewaySiblingFailure", 120, 2000, sq=4, st=8), T("TestPanicPaginated", 600, 8000, sq=2, st=4)]),
         "C16": dict(pkg="c16", tests=[T("TestDirect", 12000, 120000, sq=6, st=12), T("TestSocket", 1800, 12000, sq=6, st=8, race=True), T("TestMutations", 600, 12000, sq=4, st=8, race=True)]),
         "C17": dict(pkg="c17", tests=[T("TestPinned"), T("TestStaleCloser"), T("TestLifecycle", 1920, 24000, sq=8, st=16, race=True)]),
         "C18": dict(pkg="c18", tests=[T("TestArgs", 24000, 400000, sq=6, st=16), T("TestArgsNegative", 12000, 100000, sq=4, st=8)]),
